@@ -2,5 +2,5 @@ SPECIFICATION Spec
 CONSTANTS
   MaxLen = 4
   MaxCap = 5
-INVARIANTS AccessorsAgree RingLive EmitCont
+INVARIANTS AccessorsAgree RingLive WriteMapOK EmitCont
 CHECK_DEADLOCK FALSE
